@@ -786,6 +786,68 @@ PROPERTIES["C15"]["jobs"] += [
 PROPERTIES["C16"]["explanation"] += " History LENGTH as a dimension: over the long-needle space LN, a fresh Finder first makes k searches of a near miss (or of the needle itself) and then the search under test, for every k in 30..=64 (thorough 0..=130) - bracketing the crate's adaptive threshold of 50 prefilter calls; the answer must be the fresh finder's."
 PROPERTIES["C15"]["explanation"] += " Call-granularity sharing: a Finder shared by reference with a second thread that makes k searches (k = 40..=52; thorough 30..=70) before the first thread searches - over the LN space; every answer must equal the answer in isolation (state that a change hoists into the shared Finder shows here even when it needs dozens of earlier calls, which no loom program reaches)."
 
+
+def race_handler(job, tier, seed, workdir, drv):
+    """Free-running complement of loom: the race harness on real threads,
+    natively (answers) and under helgrind (unsynchronised accesses)."""
+    import subprocess, re, time
+    spec = {"bin": "race", "profile": "release"}
+    drv.build(spec)
+    exe = drv.bin_path(spec)
+    t0 = time.time()
+    violations, calls = [], 0
+    runs = 12 if tier == "quick" else 60
+    for i in range(runs):
+        p = subprocess.run([exe, "--threads", str(2 + i % 7), "--rounds", "3"], stdout=subprocess.PIPE, stderr=subprocess.PIPE, text=True, timeout=600)
+        m = re.search(r"RACE-HARNESS threads=(\d+) rounds=\d+ calls=(\d+) mismatches=(\d+)", p.stdout)
+        if p.returncode < 0:
+            violations.append({"class": "crash", "what": "[crash] the race harness died with signal %d on %d real threads" % (-p.returncode, 2 + i % 7), "replay_argv": None, "detail": {"class": "crash"}})
+            continue
+        if not m:
+            drv.log(p.stderr[-2000:])
+            drv.machinery("race harness produced no result line")
+        calls += int(m.group(2))
+        if int(m.group(3)) > 0:
+            first = [l for l in p.stderr.splitlines() if l.startswith("RACE-MISMATCH")][:2]
+            violations.append({"class": "wrong_result", "what": "[wrong_result] %s call(s) returned a wrong answer while %s real threads used the crate concurrently: %s" % (m.group(3), m.group(1), " | ".join(first)),
+                               "replay_argv": None, "detail": {"class": "wrong_result", "threads": int(m.group(1))}})
+    hg = subprocess.run(["valgrind", "--tool=helgrind", "-q", "--num-callers=24", exe, "--threads", "3", "--rounds", "1" if tier == "quick" else "2"],
+                        stdout=subprocess.PIPE, stderr=subprocess.PIPE, text=True, timeout=3600)
+    if "RACE-HARNESS" not in hg.stdout:
+        drv.log(hg.stderr[-2000:])
+        drv.machinery("race harness did not complete under helgrind")
+    blocks = re.split(r"\n==\d+== \n", hg.stderr)
+    reports = [b for b in blocks if "Possible data race" in b]
+    in_crate = []
+    for b in reports:
+        heads = [l for l in b.splitlines() if re.search(r"==\s+at 0x", l)]
+        # an access made through core's atomics (a Relaxed store is a plain
+        # mov to helgrind) is not a data race
+        if any("(atomic.rs:" in l for l in heads):
+            continue
+        if re.search(r"\bmemchr::", b):
+            in_crate.append(b)
+    for b in in_crate[:4]:
+        frames = [l.split("== ", 1)[-1].strip() for l in b.splitlines() if "memchr::" in l][:3]
+        violations.append({"class": "data_race", "what": "[data_race] helgrind: unsynchronised conflicting accesses from two threads inside the crate: " + " <- ".join(frames),
+                           "replay_argv": None, "detail": {"class": "data_race", "report": b[-1500:]}})
+    res = {"job": job["name"], "evaluations": calls, "states": runs + 1, "distinct_nontrivial": calls,
+           "histogram": {"helgrind reports (all)": len(reports), "helgrind reports with a frame in the crate and no atomic access": len(in_crate)},
+           "samples": [{"harness": "2..8 real threads; every dispatched routine on 14 lengths, 10 needles x 10 haystack lengths through the free functions, fresh and SHARED Finder/FinderRev, is_equal/is_prefix/is_suffix", "runs": runs}],
+           "violation_count": len(violations), "violations": violations[:8], "machinery_errors": [], "caps_hit": [],
+           "extra": {"exhaustive": True, "nontrivial_rule": "every call is compared with the naive reference", "bounds": {"native_runs": runs, "threads": "2..8", "helgrind_runs": 1},
+                     "note": "free-running complement of the loom exploration: schedules are NOT enumerated here; helgrind's happens-before analysis flags conflicting unsynchronised accesses independently of the schedule that happened to run"}}
+    for v in violations:
+        res["histogram"]["violation/" + v["class"]] = res["histogram"].get("violation/" + v["class"], 0) + 1
+    res["_wall_s"] = time.time() - t0
+    drv.log("  job %-28s %10d evals %8d viol  %.1fs" % (job["name"], calls, len(violations), res["_wall_s"]))
+    return res, None
+
+
+PROPERTIES["C15"]["jobs"] += [{"name": "race harness (real threads; helgrind)", "handler": race_handler, "classes": None}]
+PROPERTIES["C15"]["explanation"] += " Complement for what has no scheduling point: the same kind of bodies (every dispatched routine, free functions with different needles, one shared Finder/FinderRev) run on 2..8 REAL threads, natively (every answer compared with the reference) and once under valgrind's helgrind; a conflicting pair of unsynchronised, non-atomic accesses with a frame inside the crate (a `static mut` scratch buffer, a cache behind `unsafe impl Sync`) is a violation. The dispatch cells are warmed first - their racy first calls are loom's part."
+PROPERTIES["C15"]["assumptions"] = [a for a in PROPERTIES["C15"]["assumptions"] if "race detector" not in a] + ["the helgrind pass is free-running (its schedules are not enumerated); it is a monitor for unsynchronised accesses that the loom exploration cannot see, not the deciding exploration"]
+
 HOOK_COMMITS = ["ffdf165", "556bbde", "0f24165", "8fa21ee"]
 
 ENGINES = [
